@@ -3,6 +3,9 @@
 
 use std::fmt;
 use std::fmt::{Debug, Display, Formatter};
+#[cfg(rufsm_verif)]
+use crate::verif_sync::atomic::Ordering;
+#[cfg(not(rufsm_verif))]
 use std::sync::atomic::Ordering;
 
 #[cfg(feature = "Debug")]
